@@ -1,6 +1,6 @@
-(* max / min: the argmax mask (np.argmax first-occurrence rule) selects exactly one extremal element per
-   fibre; on the set of inputs with the same argmax table the forward is a linear gather and the code's
-   backward is its adjoint; tuple dims are rejected by the backward.                               *)
+(* max / min: first_extremum_mask selects, for every dim form (None | int | tuple, 0-d included), exactly one extremal
+   element per fibre — the first in row-major order of the reduced coordinates (np.argmax's tie rule); on the set
+   of inputs with the same argmax table the forward is a linear gather and the code's backward is its adjoint.     *)
 From Coq Require Import List Arith ZArith Lia Bool Permutation.
 Import ListNotations.
 From SG Require Import Base.Sums Base.ScalarExt Base.Cmp NumPy.Index NumPy.Tensor NumPy.Gather NumPy.TensorFn NumPy.Broadcast NumPy.Reduce
@@ -64,6 +64,105 @@ Proof.
   - cbn [red_shape] in Hj. destruct j as [|k tj]. apply in_idxs_length in Hj. discriminate.
     apply in_idxs_cons in Hj as [Hk Hj]. cbn [fibre] in Hi. apply in_map_iff in Hi as (t & <- & Ht).
     apply in_idxs_cons. split; auto. eapply IH; eauto.
+Qed.
+
+(* ---------- the group of a position: colof / fpos ---------- *)
+Lemma length_idxs : forall sh, length (idxs sh) = size sh.
+Proof.
+  induction sh as [|d r IH]; simpl. reflexivity.
+  assert (G: forall l, length (flat_map (fun i => map (cons i) (idxs r)) l) = length l * size r).
+  { induction l as [|a l IHl]. reflexivity. cbn [flat_map length]. rewrite app_length, map_length, IHl.
+    change (@length (list nat) (idxs r)) with (@length idx (idxs r)). rewrite IH. lia. }
+  now rewrite G, seq_length.
+Qed.
+Lemma flat_map_blocks {X} (f:nat->list X) L : (forall k, length (f k) = L) ->
+  forall d off k p, k < d -> p < L -> nth_error (flat_map f (seq off d)) (k * L + p) = nth_error (f (off + k)) p.
+Proof.
+  intros HL. induction d as [|d IH]; intros off k p Hk Hp. lia.
+  cbn [seq flat_map]. destruct k as [|k].
+  - rewrite Nat.add_0_r. cbn [Nat.mul Nat.add]. apply nth_error_app1. now rewrite HL.
+  - rewrite nth_error_app2 by (rewrite HL; nia). rewrite HL.
+    replace (S k * L + p - L) with (k * L + p) by nia. rewrite IH by lia. f_equal. f_equal. lia.
+Qed.
+Lemma flat_map_length_const {X} (f:nat->list X) L : (forall k, length (f k) = L) -> forall l, length (flat_map f l) = length l * L.
+Proof. intros HL. induction l as [|a l IH]; simpl; auto. now rewrite app_length, HL, IH. Qed.
+
+Lemma colof_length : forall m sh i, length m = length sh -> length i = length sh -> length (colof m sh i) = fibre_size m sh.
+Proof.
+  induction m as [|[|] m IH]; intros [|d r] [|k t] Em Ei; simpl in Em, Ei; try discriminate; auto.
+  - cbn [colof fibre_size]. rewrite (flat_map_length_const _ (fibre_size m r)), seq_length. reflexivity.
+    intros k'. rewrite map_length. apply IH; lia.
+  - cbn [colof fibre_size]. rewrite map_length. apply IH; lia.
+Qed.
+Lemma fpos_lt : forall m sh i, length m = length sh -> In i (idxs sh) -> fpos m sh i < fibre_size m sh.
+Proof.
+  induction m as [|[|] m IH]; intros [|d r] i Em Hi; simpl in Em; try discriminate.
+  - simpl. destruct i; simpl; lia.
+  - destruct i as [|k t]. { apply in_idxs_length in Hi. discriminate. }
+    apply in_idxs_cons in Hi as [Hk Ht]. cbn [fpos fibre_size]. specialize (IH r t ltac:(lia) Ht). nia.
+  - destruct i as [|k t]. { apply in_idxs_length in Hi. discriminate. }
+    apply in_idxs_cons in Hi as [Hk Ht]. cbn [fpos fibre_size]. apply IH; auto; lia.
+Qed.
+Lemma colof_pos : forall m sh i, length m = length sh -> In i (idxs sh) -> nth_error (colof m sh i) (fpos m sh i) = Some i.
+Proof.
+  induction m as [|[|] m IH]; intros [|d r] i Em Hi; simpl in Em; try discriminate.
+  - apply in_idxs_nil in Hi. subst. reflexivity.
+  - destruct i as [|k t]. { apply in_idxs_length in Hi. discriminate. }
+    apply in_idxs_cons in Hi as [Hk Ht]. cbn [fpos colof].
+    rewrite (flat_map_blocks (fun k' => map (cons k') (colof m r t)) (fibre_size m r)).
+    + cbn [Nat.add]. rewrite nth_error_map. unfold idx in *. rewrite (IH r t) by (auto; lia). reflexivity.
+    + intros k'. rewrite map_length. apply colof_length. lia. now apply in_idxs_length.
+    + exact Hk.
+    + apply fpos_lt; auto; lia.
+  - destruct i as [|k t]. { apply in_idxs_length in Hi. discriminate. }
+    apply in_idxs_cons in Hi as [Hk Ht]. cbn [fpos colof]. rewrite nth_error_map. unfold idx in *. rewrite (IH r t) by (auto; lia). reflexivity.
+Qed.
+Lemma nodup_colof : forall m sh i, NoDup (colof m sh i).
+Proof.
+  induction m as [|[|] m IH]; intros sh i; try (simpl; repeat constructor; auto; fail).
+  - destruct sh as [|d r]; [simpl; repeat constructor; auto|]. destruct i as [|k t]; [simpl; repeat constructor; auto|].
+    cbn [colof].
+    assert (G: forall l, NoDup l -> NoDup (flat_map (fun k' => map (cons k') (colof m r t)) l)).
+    { induction l as [|a l IHl]; intros ND; simpl. constructor. inversion ND; subst. apply NoDup_app'.
+      - apply NoDup_map_inj; auto. intros x y E. now inversion E.
+      - auto.
+      - intros x Hx Hc. apply in_map_iff in Hx as (u & <- & _). apply in_flat_map in Hc as (k' & Hk' & Hc).
+        apply in_map_iff in Hc as (u' & E & _). inversion E; subst. contradiction. }
+    apply G, seq_NoDup.
+  - destruct sh as [|d r]; [simpl; repeat constructor; auto|]. destruct i as [|k t]; [simpl; repeat constructor; auto|].
+    cbn [colof]. apply NoDup_map_inj; auto. intros x y E. now inversion E.
+Qed.
+Lemma colof_member : forall m sh keep j i, length m = length sh -> In j (idxs (red_shape m sh keep)) ->
+  In i (fibre m sh keep j) -> colof m sh i = fibre m sh keep j /\ proj m keep i = j.
+Proof.
+  induction m as [|[|] m IH]; intros [|e r] keep j i Hm Hj Hi; simpl in Hm; try discriminate.
+  - simpl in Hi. destruct Hi as [<-|[]]. simpl in Hj. destruct Hj as [<-|[]]. split; reflexivity.
+  - cbn [fibre] in Hi. apply in_flat_map in Hi as (k & Hk & Hi). apply in_map_iff in Hi as (t & <- & Ht).
+    cbn [red_shape] in Hj. cbn [colof fibre proj]. destruct keep.
+    + destruct j as [|j0 tj]. apply in_idxs_length in Hj. discriminate. apply in_idxs_cons in Hj as [Hj0 Hj].
+      cbn [tl] in *. destruct (IH r true tj t ltac:(lia) Hj Ht) as [E1 E2]. rewrite E1, E2. split. reflexivity. f_equal. lia.
+    + destruct (IH r false j t ltac:(lia) Hj Ht) as [E1 E2]. rewrite E1, E2. split; reflexivity.
+  - cbn [red_shape] in Hj. destruct j as [|k tj]. apply in_idxs_length in Hj. discriminate.
+    apply in_idxs_cons in Hj as [Hk Hj]. cbn [fibre] in Hi. apply in_map_iff in Hi as (t & <- & Ht).
+    cbn [colof fibre proj]. destruct (IH r keep tj t ltac:(lia) Hj Ht) as [E1 E2]. rewrite E1, E2. split; reflexivity.
+Qed.
+Lemma fibre_length m sh keep j : length m = length sh -> In j (idxs (red_shape m sh keep)) -> fibre_size m sh <> 0 ->
+  length (fibre m sh keep j) = fibre_size m sh.
+Proof.
+  intros Hm Hj Hf. destruct (fibre m sh keep j) as [|i l] eqn:E.
+  - (* the fibre of an in-range output position is never empty when fibre_size <> 0 *)
+    exfalso. revert sh keep j Hm Hj Hf E. induction m as [|[|] m IH]; intros [|e r] keep j Hm Hj Hf E; simpl in Hm; try discriminate.
+    + cbn [fibre fibre_size red_shape] in *. destruct e as [|e]. lia.
+      cbn [seq flat_map] in E. apply app_eq_nil in E as [E _]. apply map_eq_nil in E.
+      destruct keep.
+      * destruct j as [|j0 tj]. apply in_idxs_length in Hj. discriminate. apply in_idxs_cons in Hj as [_ Hj].
+        apply (IH r true tj); auto; try lia; try (intro Hc; rewrite Hc in Hf; lia).
+      * apply (IH r false j); auto; try lia; try (intro Hc; rewrite Hc in Hf; lia).
+    + cbn [fibre fibre_size red_shape] in *. destruct j as [|k tj]. apply in_idxs_length in Hj. discriminate.
+      apply in_idxs_cons in Hj as [_ Hj]. apply map_eq_nil in E. apply (IH r keep tj); auto; lia.
+  - assert (Hi: In i (fibre m sh keep j)) by (rewrite E; left; auto).
+    destruct (colof_member m sh keep j i Hm Hj Hi) as [E1 _]. rewrite <- E, <- E1. apply colof_length. exact Hm.
+    apply in_idxs_length. eapply fibre_in; eauto.
 Qed.
 
 Section P.
@@ -139,12 +238,6 @@ Proof.
 Qed.
 
 (* ---------- the kernels along one axis ---------- *)
-Lemma ext_mask_int (a:tensor A) z x : norm_axis (rank a) z = Some x -> nth x (tshape a) 0 <> 0 ->
-  ext_mask le a (AxInt z) = Some (fun i => nth x i 0 =? argbest le (map (fun k => tat a (set_at x k i)) (seq 0 (nth x (tshape a) 0)))).
-Proof.
-  intros Ex Hd. unfold ext_mask. rewrite Ex. destruct (nth x (tshape a) 0 =? 0) eqn:E. apply Nat.eqb_eq in E. congruence. reflexivity.
-Qed.
-
 Definition column (a:tensor A) x d (jj:idx) : list A := map (fun k => tat a (insert_at x k jj)) (seq 0 d).
 
 Lemma column_length (a:tensor A) x d jj : length (column a x d jj) = d.
@@ -152,32 +245,6 @@ Proof. unfold column. now rewrite map_length, seq_length. Qed.
 Lemma column_nonempty (a:tensor A) x d jj : d <> 0 -> column a x d jj <> [].
 Proof. intros Hd E. apply (f_equal (@length A)) in E. rewrite column_length in E. simpl in E. congruence. Qed.
 
-Theorem ext_backward_int (g a:tensor A) z x keep :
-  norm_axis (rank a) z = Some x -> nth x (tshape a) 0 <> 0 ->
-  tshape g = red_shape (mask_of (rank a) [x]) (tshape a) keep ->
-  exists mk r, ext_mask le a (AxInt z) = Some mk /\ ext_backward le g a (AxInt z) keep = Some r /\ tshape r = tshape a /\
-    forall i, In i (idxs (tshape a)) -> tat r i = if mk i then tat g (proj (mask_of (rank a) [x]) keep i) else s0.
-Proof.
-  intros Ex Hd Hg. unfold rank in *. set (sa := tshape a) in *. set (m := mask_of (length sa) [x]) in *.
-  assert (Hm: length m = length sa) by apply mask_of_length.
-  assert (Hax: strict_axes (length sa) (AxInt z) = Some [x]).
-  { unfold strict_axes, np_reduce_axes. cbn [andb]. now rewrite Ex. }
-  destruct (bw_expand_spec g sa (AxInt z) keep [x] Hax Hg) as (g' & Eg & Hcase).
-  eexists. unfold ext_backward. rewrite (ext_mask_int a z x Ex Hd). cbn [obind]. rewrite Eg. cbn [obind]. fold sa.
-  assert (Hs: tshape g' = red_shape m sa true /\ forall i, In i (idxs sa) -> tat g' (proj m true i) = tat g (proj m keep i)).
-  { destruct Hcase as [(Hk & _ & Hs & Ha)|(Hk & ->)].
-    - subst keep. split. exact Hs. intros i Hi. rewrite Ha. fold m. f_equal. apply proj_false_true.
-      rewrite Hm. symmetry. now apply in_idxs_length.
-    - destruct Hk as [->|Hk]; [|discriminate]. split. exact Hg. reflexivity. }
-  destruct Hs as [Hs Ha]. rewrite Hs.
-  rewrite (broadcast_shapes_absorb_l _ sa (red_shape_keep_broadcastable m sa Hm)). cbn [obind].
-  eexists. split. reflexivity. split. reflexivity. split. reflexivity.
-  intros i Hi. cbn [tat]. rewrite (bcast_idx_id sa i Hi).
-  unfold bcast_idx. rewrite red_shape_keep_length by auto. rewrite Nat.sub_diag. cbn [skipn].
-  rewrite bm_al_red_keep by auto. rewrite Ha by auto. reflexivity.
-Qed.
-
-(* the forward value is the selected element of the column *)
 Lemma ext_forward_int (a:tensor A) z x keep :
   norm_axis (rank a) z = Some x -> nth x (tshape a) 0 <> 0 ->
   exists o, ext_forward le a (AxInt z) keep = Some o /\ tshape o = red_shape (mask_of (rank a) [x]) (tshape a) keep /\
@@ -206,68 +273,100 @@ Proof.
   clearbody K. unfold column. now rewrite nth_map_seq0 by exact HK.
 Qed.
 
-(* ---------- the VJP on a linear piece: all inputs a' with the same argmax table ---------- *)
-Theorem ext_vjp_int (g a:tensor A) z x keep :
-  norm_axis (rank a) z = Some x -> nth x (tshape a) 0 <> 0 ->
-  tshape g = red_shape (mask_of (rank a) [x]) (tshape a) keep ->
-  exists mk r, ext_mask le a (AxInt z) = Some mk /\ ext_backward le g a (AxInt z) keep = Some r /\ tshape r = tshape a /\
-    forall a' mk', tshape a' = tshape a -> ext_mask le a' (AxInt z) = Some mk' ->
-      (forall i, In i (idxs (tshape a)) -> mk' i = mk i) ->
-      exists o, ext_forward le a' (AxInt z) keep = Some o /\ tshape o = tshape g /\
-        dot (idxs (tshape o)) (tat g) (tat o) = dot (idxs (tshape a)) (tat r) (tat a').
+(* ---------- the code's own axis handling agrees with NumPy's on every accepted argument ---------- *)
+Lemma ext_code_mask_spec n ax ks : np_reduce_axes true n ax = Some ks -> ext_code_mask n ax = mask_of n ks.
 Proof.
-  intros Ex Hd Hg. destruct (ext_backward_int g a z x keep Ex Hd Hg) as (mk & r & Emk & Er & Hr & Vr).
-  exists mk, r. repeat split; auto. intros a' mk' Ha' Emk' Hsame.
-  assert (Ex': norm_axis (rank a') z = Some x) by (unfold rank in *; now rewrite Ha').
-  assert (Hd': nth x (tshape a') 0 <> 0) by now rewrite Ha'.
-  destruct (ext_forward_int a' z x keep Ex' Hd') as (o & Eo & Ho & Vo).
-  assert (Emk'2: Some mk' = Some (fun i => nth x i 0 =? argbest le (map (fun k => tat a' (set_at x k i)) (seq 0 (nth x (tshape a') 0)))))
-    by (rewrite <- Emk'; apply ext_mask_int; auto).
-  assert (Emk2: Some mk = Some (fun i => nth x i 0 =? argbest le (map (fun k => tat a (set_at x k i)) (seq 0 (nth x (tshape a) 0)))))
-    by (rewrite <- Emk; apply ext_mask_int; auto).
-  injection Emk'2 as ->. injection Emk2 as ->. clear Emk Emk'.
-  exists o. split. exact Eo. unfold rank in *. rewrite Ha' in *. split. congruence.
-  pose proof (norm_axis_lt _ _ _ Ex) as Hx. set (sa := tshape a) in *. set (m := mask_of (length sa) [x]) in *.
-  assert (Hm: length m = length sa) by apply mask_of_length. set (d := nth x sa 0) in *.
-  fold sa d in Vr, Hsame.
-  unfold dot. rewrite Ho. rewrite (isum_by_fibres m sa keep) by auto. apply isum_ext. intros j Hj.
-  (* inside the fibre of j *)
-  transitivity (isum (fibre m sa keep j) (fun i =>
-     if nth x i 0 =? argbest le (map (fun k => tat a (set_at x k i)) (seq 0 d)) then smul (tat g j) (tat a' i) else s0)).
-  2:{ rewrite !(fibre_sum_is_scatter m sa keep j) by auto. apply isum_ext. intros i Hi.
-      destruct (idx_eqb (proj m keep i) j) eqn:E; auto. apply idx_eqb_spec in E. rewrite Vr by auto.
-      destruct (nth x i 0 =? _). now rewrite E. now rewrite smul_0_l. }
-  unfold m. rewrite fibre_single by auto. fold m. rewrite isum_map.
-  set (jj := if keep then remove_at x j else j).
-  assert (Ljj: x <= length jj).
-  { pose proof (in_idxs_length _ _ Hj) as L. unfold jj. destruct keep.
-    - rewrite red_shape_keep_length in L by auto. rewrite length_remove by lia. lia.
-    - pose proof (red_shape_nokeep_length m sa Hm) as L2. unfold m in L2 at 2. rewrite cnt_mask_of in L2.
-      simpl in L2. lia. repeat constructor; auto. intros k [<-|[]]; auto. }
-  assert (Hin: forall k, k < d -> In (insert_at x k jj) (idxs sa)).
-  { intros k Hk. assert (In (insert_at x k jj) (fibre m sa keep j)).
-    { unfold m. rewrite fibre_single by auto. apply in_map_iff. exists k. split; auto. apply in_seq. fold d. lia. }
-    eapply fibre_in; eauto. }
-  rewrite Vo by (rewrite Ho; exact Hj). cbn zeta. fold jj. fold d.
-  set (K' := argbest le (column a' x d jj)).
-  assert (HK': K' < d).
-  { unfold K'. pose proof (argbest_lt (column a' x d jj) (column_nonempty _ _ _ _ Hd)) as L.
-    now rewrite column_length in L. }
-  transitivity (isum (seq 0 d) (fun k => if k =? K' then smul (tat g j) (tat a' (insert_at x k jj)) else s0)).
-  { symmetry. exact (isum_seq_pick d K' (fun k => smul (tat g j) (tat a' (insert_at x k jj))) HK'). }
-  apply isum_ext. intros k Hk. apply in_seq in Hk.
-  rewrite nth_insert by exact Ljj.
-  assert (Ecol: forall (b:tensor A) k0, map (fun k' => tat b (set_at x k' (insert_at x k0 jj))) (seq 0 d) = column b x d jj).
-  { intros b k0. unfold column. apply map_ext. intros k'. now rewrite set_at_insert. }
-  rewrite Ecol.
-  (* the tables agree, so the selected positions agree *)
-  assert (EK: argbest le (column a x d jj) = K').
-  { specialize (Hsame (insert_at x K' jj) (Hin K' HK')). rewrite nth_insert, !Ecol in Hsame by exact Ljj.
-    fold K' in Hsame. rewrite Nat.eqb_refl in Hsame. symmetry in Hsame. apply Nat.eqb_eq in Hsame. now symmetry. }
-  rewrite EK. reflexivity.
+  intros Hax. unfold ext_code_mask, mask_of. destruct (n =? 0) eqn:E0.
+  - apply Nat.eqb_eq in E0. subst. reflexivity.
+  - apply Nat.eqb_neq in E0. rewrite (legacy_is_strict _ _ E0) in Hax.
+    pose proof (mean_code_axes_spec n ax ks Hax) as Hc. unfold mean_code_axes in Hc. rewrite Hc.
+    apply map_ext. intros i. apply existsb_of_nat.
 Qed.
 
-(* tuple dims: accepted by the forward, rejected by the backward (open finding) *)
-Theorem ext_tuple_backward_raises (g a:tensor A) l keep : ext_backward le g a (AxTuple l) keep = None.
-Proof. reflexivity. Qed.
+(* within a column, "rank = K" identifies the K-th element *)
+Lemma colof_pos_eqb m sh (F:list idx) K i : length m = length sh -> colof m sh i = F -> In i (idxs sh) -> K < length F ->
+  (fpos m sh i =? K) = idx_eqb (nth K F []) i.
+Proof.
+  intros Hm EF Hi HK. pose proof (colof_pos m sh i Hm Hi) as E. rewrite EF in E.
+  destruct (fpos m sh i =? K) eqn:E1.
+  - apply Nat.eqb_eq in E1. subst K. symmetry. apply idx_eqb_spec. now apply nth_error_nth.
+  - symmetry. destruct (idx_eqb (nth K F []) i) eqn:E2; auto. apply idx_eqb_spec in E2.
+    assert (E3: nth_error F K = Some i). { rewrite <- E2. now apply nth_error_nth'. }
+    pose proof (nodup_colof m sh i) as ND. rewrite EF in ND. rewrite NoDup_nth_error in ND.
+    assert (K = fpos m sh i). { apply ND. exact HK. congruence. }
+    apply Nat.eqb_neq in E1. congruence.
+Qed.
+
+(* ---------- the VJP on a linear piece: all inputs a' with the same argmax table; every accepted dim form ---------- *)
+Theorem ext_vjp (g a:tensor A) ax keep ks :
+  np_reduce_axes true (rank a) ax = Some ks ->
+  fibre_size (mask_of (rank a) ks) (tshape a) <> 0 ->
+  tshape g = red_shape (mask_of (rank a) ks) (tshape a) keep ->
+  exists mk r, ext_mask le a ax = Some mk /\ ext_backward le g a ax keep = Some r /\ tshape r = tshape a /\
+    (forall i, In i (idxs (tshape a)) -> tat r i = if mk i then tat g (proj (mask_of (rank a) ks) keep i) else s0) /\
+    forall a' mk', tshape a' = tshape a -> ext_mask le a' ax = Some mk' ->
+      (forall i, In i (idxs (tshape a)) -> mk' i = mk i) ->
+      exists o, ext_forward le a' ax keep = Some o /\ tshape o = tshape g /\
+        dot (idxs (tshape o)) (tat g) (tat o) = dot (idxs (tshape a)) (tat r) (tat a').
+Proof.
+  intros Hax Hf Hg. unfold rank in *. set (sa := tshape a) in *. set (m := mask_of (length sa) ks) in *.
+  assert (Hm: length m = length sa) by apply mask_of_length.
+  assert (Ecm: ext_code_mask (length sa) ax = m) by now apply ext_code_mask_spec.
+  destruct (bw_expand0_spec g sa ax keep ks Hax Hg) as (g' & Eg & Hc).
+  destruct (expanded_gather g g' sa ax keep ks Hax Hg Hc) as (sr & Esr & Hsr & Vsr). fold m in Vsr.
+  unfold badd, bop in Esr. cbn [zeros tshape tat] in Esr.
+  destruct (broadcast_shapes sa (tshape g')) as [so|] eqn:Eb; [|discriminate]. injection Esr as <-. cbn [tshape tat] in *. subst so.
+  assert (Eb': broadcast_shapes (tshape g') sa = Some sa).
+  { apply broadcast_shapes_absorb_l. apply broadcast_shapes_sound in Eb. tauto. }
+  assert (Vg: forall i, In i (idxs sa) -> tat g' (bcast_idx (tshape g') sa i) = tat g (proj m keep i)).
+  { intros i Hi. rewrite <- Vsr by exact Hi. symmetry. apply sadd_0_l. }
+  assert (Emask: forall (b:tensor A), tshape b = sa ->
+     ext_mask le b ax = Some (fun i => fpos m sa i =? argbest le (map (tat b) (colof m sa i)))).
+  { intros b Hb. unfold ext_mask. unfold rank. rewrite Hb, Ecm.
+    destruct (fibre_size m sa =? 0) eqn:E0. apply Nat.eqb_eq in E0. congruence. reflexivity. }
+  exists (fun i => fpos m sa i =? argbest le (map (tat a) (colof m sa i))).
+  assert (Er: ext_backward le g a ax keep = Some (mkT sa (fun j =>
+     if fpos m sa (bcast_idx sa sa j) =? argbest le (map (tat a) (colof m sa (bcast_idx sa sa j)))
+     then tat g' (bcast_idx (tshape g') sa j) else s0))).
+  { unfold ext_backward. rewrite (Emask a eq_refl). cbn [obind]. unfold rank. fold sa. rewrite Eg. cbn [obind]. rewrite Eb'. reflexivity. }
+  eexists. split. apply Emask; reflexivity. split. exact Er. split. reflexivity. split.
+  { intros i Hi. cbn [tat]. rewrite (bcast_idx_id sa i Hi), Vg by exact Hi. reflexivity. }
+  intros a' mk' Ha' Emk' Hsame. rewrite (Emask a' Ha') in Emk'. injection Emk' as <-.
+  unfold ext_forward. unfold rank. rewrite Ha'. fold sa. rewrite Hax. fold m.
+  destruct (fibre_size m sa =? 0) eqn:E0. apply Nat.eqb_eq in E0. congruence.
+  eexists. split. reflexivity. split. { cbn [tshape]. now rewrite Hg. }
+  cbn [tshape tat]. unfold dot. rewrite (isum_by_fibres m sa keep) by auto. apply isum_ext. intros j Hj.
+  set (F := fibre m sa keep j).
+  assert (LF: length F = fibre_size m sa) by (apply fibre_length; auto).
+  assert (HFne: map (tat a') F <> []).
+  { intro E. apply (f_equal (@length A)) in E. rewrite map_length, LF in E. simpl in E. congruence. }
+  set (K' := argbest le (map (tat a') F)).
+  assert (HK': K' < length F). { pose proof (argbest_lt (map (tat a') F) HFne) as L. now rewrite map_length in L. }
+  set (i' := nth K' F []).
+  assert (Hi'F: In i' F) by (apply nth_In; exact HK').
+  destruct (colof_member m sa keep j i' Hm Hj Hi'F) as [Ecol' Eproj'].
+  assert (Hi': In i' (idxs sa)) by (eapply fibre_in; eauto).
+  set (K := argbest le (map (tat a) F)).
+  assert (HK: K < length F).
+  { assert (map (tat a) F <> []). { intro E. apply (f_equal (@length A)) in E. rewrite map_length, LF in E. simpl in E. congruence. }
+    pose proof (argbest_lt (map (tat a) F) H1) as L. now rewrite map_length in L. }
+  assert (EK: K = K').
+  { specialize (Hsame i' Hi'). rewrite Ecol' in Hsame. fold F K K' in Hsame.
+    rewrite !(colof_pos_eqb m sa F) in Hsame by auto. fold i' in Hsame. rewrite idx_eqb_refl in Hsame.
+    symmetry in Hsame. apply idx_eqb_spec in Hsame.
+    pose proof (nodup_colof m sa i') as ND. rewrite Ecol' in ND. fold F in ND. rewrite NoDup_nth_error in ND. apply ND. exact HK.
+    rewrite (@nth_error_nth' _ F K []) by exact HK. rewrite (@nth_error_nth' _ F K' []) by exact HK'. now f_equal. }
+  assert (Ev: best_of le (map (tat a') F) = tat a' i').
+  { unfold best_of. fold K'. rewrite (nth_indep _ s0 (tat a' [])) by (rewrite map_length; exact HK'). now rewrite map_nth. }
+  rewrite Ev.
+  transitivity (isum F (fun i => if idx_eqb i' i then smul (tat g j) (tat a' i) else s0)).
+  { symmetry. apply (isum_pick idx_eqb idx_eqb_spec F i' (fun i => smul (tat g j) (tat a' i))).
+    unfold F. rewrite <- Ecol'. apply nodup_colof. exact Hi'F. }
+  apply isum_ext. intros i Hi. destruct (colof_member m sa keep j i Hm Hj Hi) as [Ecol Eproj].
+  assert (Hisa: In i (idxs sa)) by (eapply fibre_in; eauto).
+  rewrite (bcast_idx_id sa i Hisa), Vg, Ecol, Eproj by exact Hisa. fold F K.
+  rewrite (colof_pos_eqb m sa F K i) by auto. rewrite EK. fold i'.
+  destruct (idx_eqb i' i). reflexivity. now rewrite smul_0_l.
+Qed.
 End P.
+
